@@ -35,6 +35,13 @@ func (r *Response) Result() (any, error) {
 	case resp := <-r.result:
 		return resp, nil
 	case <-ctx.Done():
+		// When both are ready select picks at random. A reply that is
+		// already there wins over the timer, however late we got here.
+		select {
+		case resp := <-r.result:
+			return resp, nil
+		default:
+		}
 		return nil, ctx.Err()
 	}
 }
